@@ -307,7 +307,29 @@ class BodyFlow:
                 continue
             seen.add((l, neg))
             ty = body.locals[l]
-            for a in self.aliases(l):
+            al_ = set(self.aliases(l))
+            # shared references to the value (`&x`) are followed for the query methods
+            refs_ = set()
+            for b in body.blocks:
+                if b.cleanup:
+                    continue
+                for s in b.stmts:
+                    if s.k == 'assign' and s.lhs.is_local() and s.rv.k == 'ref' and s.rv.place.is_local() and s.rv.place.local in al_:
+                        refs_.add(s.lhs.local)
+            for r_ in list(refs_):
+                refs_ |= self.aliases(r_)
+            for b in body.blocks:
+                if b.cleanup:
+                    continue
+                t = b.term
+                if t.k == 'call' and t.args and t.args[0].place is not None and t.args[0].place.is_local() \
+                        and t.args[0].place.local in refs_ and t.dest.is_local():
+                    c = strip_generics(t.callee() or '')
+                    if c.endswith('Result::is_ok') or c.endswith('Option::is_some'):
+                        work.append((t.dest.local, neg))
+                    elif c.endswith('Result::is_err') or c.endswith('Option::is_none'):
+                        work.append((t.dest.local, not neg))
+            for a in al_:
                 # switches directly on a bool
                 for b in body.blocks:
                     if b.cleanup:
@@ -641,10 +663,40 @@ class Effects:
     def _is_mut_ty(self, ty):
         return ty.startswith('&mut ') or ty.startswith('core::pin::Pin<&mut')
 
+    def closure_args(self, bf, term):
+        """closures passed to a call: list of (closure body, [(upvar index, root, path) for captured references])"""
+        res = []
+        for a in term.args:
+            if a.place is None:
+                continue
+            loc = a.place.local
+            # follow copies back to the closure aggregate
+            seen = set()
+            while loc not in seen:
+                seen.add(loc)
+                rv = bf.single_rvalue(loc)
+                if rv is None:
+                    break
+                if rv.k == 'agg' and rv.d.get('ak') in ('closure', 'coroutine'):
+                    cb = self.prog.by_short.get(strip_turbofish(rv.d['def']))
+                    if cb and len(cb) == 1:
+                        caps = []
+                        for i, o in enumerate(rv.ops):
+                            if o.place is not None:
+                                r, pth = bf.root_of_place(o.place)
+                                caps.append((i, r, pth, o.ty or ''))
+                        res.append((cb[0], caps))
+                    break
+                if rv.k == 'use' and rv.ops[0].place is not None and rv.ops[0].place.is_local():
+                    loc = rv.ops[0].place.local
+                else:
+                    break
+        return res
+
     def _param_of_root(self, bf, root, path):
         """map a root to the summary's parameter index or None"""
         body = bf.body
-        if body.coroutine:
+        if body.coroutine or '{closure#' in body.path.split('::')[-1]:
             if root == 1 and path:
                 try:
                     return int(path[0]) + 1
@@ -695,9 +747,8 @@ class Effects:
             if p is None:
                 continue
             # a store through a by-value (non-reference) parameter is local
-            if not body.coroutine and not (self._is_mut_ty(body.locals[root]) or '*' in [e for e in s.lhs.proj if isinstance(e, str)] or path and '()' in path):
-                continue
-            if not body.coroutine and not self._is_mut_ty(body.locals[root]):
+            clos = '{closure#' in body.path.split('::')[-1]
+            if not body.coroutine and not clos and not self._is_mut_ty(body.locals[root]):
                 continue
             w.add(p)
         co = self.coroutine_of(body)
@@ -707,6 +758,11 @@ class Effects:
                 if pidx is not None:
                     deps.append((pidx, cb, i + 1))
         for bb, t in bf.calls():
+            for (cbody, caps) in self.closure_args(bf, t):
+                for (ui, root, path, cty) in caps:
+                    p = self._param_of_root(bf, root, path)
+                    if p is not None and ('&mut' in cty or self._is_mut_ty(body.locals[root] if root < len(body.locals) else '')):
+                        deps.append((p, cbody, ui + 1))
             for (ai, root, path) in bf.mut_ref_args(t):
                 p = self._param_of_root(bf, root, path)
                 if p is None:
@@ -746,6 +802,10 @@ class Effects:
     def call_effects(self, bf, term):
         """for a call site: list of (root, path) of caller roots that may be written by this call"""
         res = []
+        for (cbody, caps) in self.closure_args(bf, term):
+            for (ui, root, path, cty) in caps:
+                if self.may_write(cbody, ui + 1):
+                    res.append((root, path, 'closure'))
         cb = self.callee_body(term)
         for (ai, root, path) in bf.mut_ref_args(term):
             if cb is None:
